@@ -93,7 +93,10 @@ SimFamilies ==
 SmallFamilies ==
   {F2x2L1, F2x2L2, ML("2x3-L1", 1, 2, 3, "all", "row", "perm", "all"), ML("3x2-L1", 1, 3, 2, "all", "row", "perm", "all"),
    ML("3x3-L1", 1, 3, 3, "all", "row", "perm", "all"), ML("2x2-L2-col", 2, 22, 22, "all", "col", "perm", "all"),
-   ML("2x2-L2-rev", 2, 22, 22, "all", "rev", "perm", "all"), Other("reidx", "all"), Other("pat", "all")}
+   ML("2x2-L2-rev", 2, 22, 22, "all", "rev", "perm", "all"), Other("reidx", "all"), Other("pat", "all"),
+   \* symmetric patterns listed column-major (what MLStructure.transpose() produces) and in reversed order
+   [Other("pat", "all") EXCEPT !.name = "pat-col", !.order = "col"],
+   [Other("pat", "all") EXCEPT !.name = "pat-rev", !.order = "rev"]}
 
 Families ==
   CASE Suite = "small"        -> SmallFamilies
